@@ -269,8 +269,8 @@ func (c dlCase) frac(name string) float64 {
 	return stackBinFracs[name]
 }
 
-func buildDL(c dlCase, sc *sched) (*dlBuilt, error) {
-	b := &dlBuilt{reg: newRecRegistry(), present: append([]string(nil), dlBins...)}
+// buildDLStrategy constructs the case's strategy (recorded in b).
+func buildDLStrategy(c dlCase, b *dlBuilt) (core.Strategy, error) {
 	var st core.Strategy
 	switch c.Strategy {
 	case "simple":
@@ -301,6 +301,15 @@ func buildDL(c dlCase, sc *sched) (*dlBuilt, error) {
 		}
 		b.pred = p
 		st = p
+	}
+	return st, nil
+}
+
+func buildDL(c dlCase, sc *sched) (*dlBuilt, error) {
+	b := &dlBuilt{reg: newRecRegistry(), present: append([]string(nil), dlBins...)}
+	st, err := buildDLStrategy(c, b)
+	if err != nil {
+		return nil, err
 	}
 	if c.Limit.Algo == "script" {
 		b.script = &scriptLimit{traj: c.Traj, sc: sc}
